@@ -697,7 +697,8 @@ def mutate(spec, rng, seed_tag):
         "drop_match", "dup_match", "foreign_match", "one_side", "null_match",
         "mismatch_clip", "drop_annotation", "add_annotation",
         "split_match", "consistent_delete", "reorder", "dup_event_ref",
-        "swap_event", "swap_event_and_match",
+        "swap_event", "swap_event_and_match", "retarget_match",
+        "extra_one_sided",
         "number", "clip_times", "task_drop", "task_orphan", "identity",
     ]
     name = rng.choice(ops)
@@ -843,6 +844,37 @@ def mutate(spec, rng, seed_tag):
                     m = dict(s["matches"][j])
                     m[mside] = new
                     e["matches"][k] = new_match(m)
+        return ce_target(i)
+    if name == "retarget_match" and ces_m:
+        # one match is pointed at the event another match already mentions:
+        # one event twice, another never, the counts still add up
+        i = rng.choice(ces_m)
+        e = s["clip_evaluations"][i]
+        side = rng.choice(["source", "target"])
+        with_side = [
+            pos for pos, j in enumerate(e["matches"])
+            if s["matches"][j].get(side) is not None
+        ]
+        if len(with_side) < 2:
+            return None
+        a, b = rng.sample(with_side, 2)
+        m = dict(s["matches"][e["matches"][a]])
+        m[side] = s["matches"][e["matches"][b]][side]
+        e["matches"][a] = new_match(m)
+        return ce_target(i)
+    if name == "extra_one_sided" and ces_m:
+        # an event that is already matched is mentioned again by a
+        # one-sided match
+        i = rng.choice(ces_m)
+        e = s["clip_evaluations"][i]
+        src = s["matches"][rng.choice(e["matches"])]
+        side = rng.choice(["source", "target"])
+        if src.get(side) is None:
+            return None
+        other = "target" if side == "source" else "source"
+        m = dict(src)
+        m[other] = None
+        e["matches"].append(new_match(m))
         return ce_target(i)
     if name == "split_match" and ces_m:
         i = rng.choice(ces_m)
